@@ -124,6 +124,7 @@ type World struct {
 	// what the storage holds as secret of clients registered without one (public, private_key_jwt)
 	Secretless string
 	Skew       time.Duration // ClockSkew of every client
+	UAUser     string        // worlds whose storage implements CanTerminateSessionFromRequest: the user of the user agent's session
 }
 
 func (w *World) Issuer(h int) string { return "https://" + w.Hosts[h] }
@@ -172,7 +173,22 @@ func (w *World) request(r opfix.Router, method, path string, q, form url.Values,
 	if bearer != "" {
 		req.Header.Set("Authorization", "Bearer "+bearer)
 	}
-	return opfix.Do(w.F.Handlers[r], req)
+	h := w.F.Handlers[r]
+	if w.Policy.SessionFromRequest {
+		// the deployment's session middleware: the user agent's session cookie names the end user,
+		// the storage finds it in the request context
+		req.AddCookie(&http.Cookie{Name: "ua_session", Value: url.QueryEscape(w.UAUser)})
+		inner := h
+		h = http.HandlerFunc(func(rw http.ResponseWriter, rq *http.Request) {
+			if c, err := rq.Cookie("ua_session"); err == nil {
+				if u, err := url.QueryUnescape(c.Value); err == nil {
+					rq = rq.WithContext(refstore.WithUASession(rq.Context(), u))
+				}
+			}
+			inner.ServeHTTP(rw, rq)
+		})
+	}
+	return opfix.Do(h, req)
 }
 
 func (w *World) post(r opfix.Router, path string, form url.Values, basic []string, bearer string) *opfix.Resp {
@@ -259,6 +275,19 @@ func NewWorld(r drv.Rand) *World {
 	if r.Bool() { // the storage verifies third-party tokens, with a verdict per role
 		w.Policy.Verifier = true
 		w.tag("storage=+TokenExchangeTokensVerifier")
+	}
+	if r.Bool() { // the storage ends sessions from the request: the user agent's session belongs to UAUser
+		w.Policy.SessionFromRequest = true
+		w.UAUser = drv.Pick(r, []string{"alice", "alice", "bob", "a:b"})
+		w.tag("storage=+CanTerminateSessionFromRequest")
+		if r.Chance(1, 3) { // ... and cannot end the sessions of one client
+			w.Policy.NoLogoutFor = drv.Pick(r, []string{"web", "web2", "native", "spa"})
+			w.tag("storage=logout-fails-for-a-client")
+		}
+	}
+	if r.Chance(1, 2) { // what the storage decides about the act claim of delegation tokens
+		w.Policy.Act = drv.Pick(r, []string{"none", "mapped", "chain"})
+		w.tag("actpolicy=" + w.Policy.Act)
 	}
 	storage := st.AsStorageTEWith(w.Policy, fromRequest)
 	// clock skew the clients are registered with
@@ -574,6 +603,19 @@ func descOf(p map[string]any, sigOK bool) *jwtDesc {
 	return d
 }
 
+// actRender renders an act claim: "" if absent, else sub, nested actors appended with ">".
+func actRender(v any) string {
+	a, ok := v.(map[string]any)
+	if !ok {
+		return ""
+	}
+	sub, _ := a["sub"].(string)
+	if n := actRender(a["act"]); n != "" {
+		return sub + ">" + n
+	}
+	return sub
+}
+
 // lifeTerm: what a decoded JWT of an exchange response says about its own lifetime - is it
 // expired right now (same margin as for presented tokens), and is exp - iat the lifetime its
 // client is registered with (ID token: IDTokenLifetime; access token: the storage's access-token
@@ -750,7 +792,7 @@ func (w *World) Exchange(r opfix.Router, x Exch) {
 		case issued == "TId":
 			if p := opfix.JWTPayload(at); p != nil {
 				d := descOf(p, true)
-				access = emit.Ctor("XIdTok", emit.Str(d.sub), emit.Str(d.azp), w.lifeTerm(p, client, true))
+				access = emit.Ctor("XIdTok", emit.Str(d.sub), emit.Str(d.azp), emit.Str(actRender(p["act"])), w.lifeTerm(p, client, true))
 				w.Pool = append(w.Pool, &Tok{S: at, Kind: "idtok", Client: client, Sub: d.sub, jwt: d})
 			} else {
 				access = "XOther"
@@ -766,10 +808,7 @@ func (w *World) Exchange(r opfix.Router, x Exch) {
 			} else if p := opfix.JWTPayload(at); p != nil {
 				d := descOf(p, true)
 				id = d.jti
-				act := "" // the actor the token carries: act.sub
-				if a, ok := p["act"].(map[string]any); ok {
-					act, _ = a["sub"].(string)
-				}
+				act := actRender(p["act"]) // the actor (chain) the token carries
 				access = emit.Ctor("XJwt", SidTerm(id), emit.Str(d.sub), emit.Str(act), w.lifeTerm(p, client, false))
 				w.Pool = append(w.Pool, &Tok{S: at, Kind: "jwt-at", Client: client, Sub: d.sub, jwt: d})
 			} else {
@@ -938,7 +977,12 @@ func (w *World) PolicyTerm() string {
 	if w.Policy.Subject != "" {
 		subj = emit.Some(emit.Str(w.Policy.Subject))
 	}
-	return emit.Ctor("TEPolicy", emit.Bool(!w.Policy.NoDefaultType), force, subj, emit.Bool(w.Policy.EmptyScopes), emit.Bool(w.Policy.Verifier))
+	sess := emit.None
+	if w.Policy.SessionFromRequest {
+		sess = emit.Some(emit.Str(w.UAUser))
+	}
+	act := map[string]string{"": "ActDefault", "none": "ActNone", "mapped": "ActMapped", "chain": "ActChain"}[w.Policy.Act]
+	return emit.Ctor("TEPolicy", emit.Bool(!w.Policy.NoDefaultType), force, subj, emit.Bool(w.Policy.EmptyScopes), emit.Bool(w.Policy.Verifier), sess, act, emit.Str(w.Policy.NoLogoutFor))
 }
 
 func (w *World) Observed() string { return emit.List(w.Outs) }
